@@ -255,7 +255,7 @@ func runC20(c *engine.Ctx) {
 				for _, l := range st.Lits {
 					if l.Op == token.EQL && l.Val {
 						if ks, ok := constOf(l.Y); ok {
-							if ex, ok := l.X.(*ssa.Extract); ok && ex.Index == 0 {
+							if ex, ok := l.X.(*ssa.Extract); ok && ex.Index == 0 && isRecommandCall(ex.Tuple) {
 								var z int64
 								if _, err := fmt.Sscanf(ks, "%d", &z); err == nil {
 									mode = z
@@ -671,4 +671,14 @@ func checkNatholeExits(c *engine.Ctx) {
 			}
 			return ""
 		}}, "every exit after the insert removes the session")
+}
+
+// isRecommandCall: the tuple is the result of MakeHoleRecords.Recommand (mode, index).
+func isRecommandCall(v ssa.Value) bool {
+	call, ok := v.(*ssa.Call)
+	if !ok {
+		return false
+	}
+	o := engine.CalleeObj(call)
+	return o != nil && o.Name() == "Recommand"
 }
